@@ -47,6 +47,9 @@ package merkle
 // key, bucket and requester - right behind the request being served when one is being served (so
 // that Requests() hands it out next), at the back otherwise
 //@ spec newReq(v, key, bid, requester) = typeof(v) == typeid(ptr_request) && as(ptr_request, v) != nil && as(ptr_request, v).key == key && len(as(ptr_request, v).bucketIDs) == 1 && as(ptr_request, v).bucketIDs[0] == bid && len(as(ptr_request, v).requesters) == 1 && as(ptr_request, v).requesters[0] == requester
+// whichever branch is taken, afterwards the request registered under (hasher name, key) has the new
+// requester and its bucket id as its last entries, and the two lists have the same length
+//@ spec lastReq(b, name, key) = as(ptr_request, valmap(valmap(b.hasherMap)[name])[str(key)].Value)
 //@ func (b *merkleBuilder) RequestData(bid, key, requester)
 //@   arith int
 //@   nosafety
@@ -54,6 +57,9 @@ package merkle
 //@   opt no-callee-pre
 //@   opt inline-none
 //@   requires b != nil
+//@   ensures [registered] key != nil && ghost(hasher_q) != nil ==> hasmap(valmap(b.hasherMap)[ghost(hasher_name_q)])[str(key)]
+//@   ensures [requester_last] key != nil && ghost(hasher_q) != nil ==> len(lastReq(b, ghost(hasher_name_q), key).requesters) >= 1 && lastReq(b, ghost(hasher_name_q), key).requesters[len(lastReq(b, ghost(hasher_name_q), key).requesters) - 1] == requester
+//@   ensures [bucket_last] key != nil && ghost(hasher_q) != nil ==> len(lastReq(b, ghost(hasher_name_q), key).bucketIDs) >= 1 && lastReq(b, ghost(hasher_name_q), key).bucketIDs[len(lastReq(b, ghost(hasher_name_q), key).bucketIDs) - 1] == bid
 //@   callpre PushBack: b.onDataMark == nil && key != nil && newReq(v, key, bid, requester)
 //@   callpre InsertAfter: b.onDataMark != nil && mark == b.onDataMark && key != nil && newReq(v, key, bid, requester)
 
